@@ -33,6 +33,9 @@ type c03Case struct {
 	Seed     uint64       `json:"seed"`
 	PlainLen int          `json:"plainLen"`
 	Edit     c03Edit      `json:"edit"`
+	// identities that match nothing, tried before / after the matching one
+	ForeignBefore int `json:"foreignBefore"`
+	ForeignAfter  int `json:"foreignAfter"`
 }
 
 var c03FileKey = []byte("C03 file key 16b")
@@ -216,7 +219,7 @@ func c03Check(c c03Case, st *stats.Run) error {
 	_, _, perr := refage.ParseHeader(hdr)
 	parses := perr == nil
 	file := append(append(append([]byte{}, hdr...), f.Nonce...), f.Payload...)
-	st.Case(changed && parses, stats.HashJSON(c), "edit="+c.Edit.Kind, "mac="+c.Edit.MAC, fmt.Sprintf("parses=%v", parses), fmt.Sprintf("stanzas=%d", min(len(f.Header.Stanzas), 5)), "mix="+hx.KindsOf(c.Recs))
+	st.Case(changed && parses, stats.HashJSON(c), fmt.Sprintf("identities=1+%d+%d", c.ForeignBefore, c.ForeignAfter), "edit="+c.Edit.Kind, "mac="+c.Edit.MAC, fmt.Sprintf("parses=%v", parses), fmt.Sprintf("stanzas=%d", min(len(f.Header.Stanzas), 5)), "mix="+hx.KindsOf(c.Recs))
 	if changed && parses {
 		st.Sample("edit="+c.Edit.Kind+"/mac="+c.Edit.MAC, map[string]any{"case": c, "header": trunc(hdr)})
 	}
@@ -230,8 +233,15 @@ func c03Check(c c03Case, st *stats.Run) error {
 			continue
 		}
 		done[key] = true
-		id := p.Identity(r)
-		rd, err := age.Decrypt(bytes.NewReader(file), id)
+		var ids []age.Identity
+		for k := 0; k < c.ForeignBefore; k++ {
+			ids = append(ids, p.X25519Identity(5+k%3))
+		}
+		ids = append(ids, p.Identity(r))
+		for k := 0; k < c.ForeignAfter; k++ {
+			ids = append(ids, []age.Identity{p.X25519Identity(6), p.Identity(hx.RecSpec{Kind: "ed25519", Idx: 5}), hx.RefuseIdentity{}}[k%3])
+		}
+		rd, err := age.Decrypt(bytes.NewReader(file), ids...)
 		switch {
 		case !changed:
 			// unedited file (control): must open
@@ -278,6 +288,9 @@ func c03GenRecs(t *rapid.T) []hx.RecSpec {
 
 func c03Gen(t *rapid.T) c03Case {
 	c := c03Case{Recs: c03GenRecs(t), Seed: rapid.Uint64Range(0, 200).Draw(t, "seed"), PlainLen: rapid.SampledFrom([]int{0, 1, 100, 70000}).Draw(t, "plainLen")}
+	if rapid.Bool().Draw(t, "moreIdentities") {
+		c.ForeignBefore, c.ForeignAfter = rapid.IntRange(0, 2).Draw(t, "fb"), rapid.IntRange(0, 3).Draw(t, "fa")
+	}
 	kinds := []string{"type", "type-swap", "arg-char", "arg-add", "arg-del", "body-flip", "body-len", "body-swap", "insert-grease", "insert-attacker", "delete", "dup", "permute", "mac-only", "raw-flip", "raw-insert", "raw-delete", "none"}
 	e := c03Edit{Kind: rapid.SampledFrom(kinds).Draw(t, "edit"), J: rapid.IntRange(0, 11).Draw(t, "j"), K: rapid.IntRange(0, 11).Draw(t, "k"), N: rapid.IntRange(0, 300).Draw(t, "n")}
 	e.MAC = rapid.SampledFrom([]string{"keep", "keep", "random", "wrongkey", "truekey"}).Draw(t, "mac")
@@ -353,7 +366,7 @@ func TestC03(t *testing.T) {
 			if !s.Mine(mi) {
 				continue
 			}
-			base := c03Case{Recs: recs, Seed: 5, PlainLen: 10}
+			base := c03Case{Recs: recs, Seed: 5, PlainLen: 10, ForeignAfter: mi % 2, ForeignBefore: mi % 3 / 2}
 			f, _, _ := c03Base(base)
 			hl := len(f.Header.Marshal())
 			for off := 0; off < hl; off++ {
